@@ -24,6 +24,129 @@ pub fn step(sess: &mut Option<Session>, st: &Value) -> Option<Value> {
 
 /// extra subcommands available with hooks
 pub fn command(cmd: &str, args: &[String]) -> bool {
-    let _ = (cmd, args);
-    false
+    let _ = args;
+    match cmd {
+        "heapops" => {
+            heapops();
+            true
+        }
+        _ => false,
+    }
+}
+
+fn str_of(arg: &Value) -> String {
+    // sequences over {"c","z"}: c = a non-NUL byte, z = NUL
+    arg.as_array()
+        .map(|a| {
+            a.iter()
+                .map(|x| if x.as_str() == Some("z") { '\u{0}' } else { 'a' })
+                .collect()
+        })
+        .unwrap_or_default()
+}
+
+/// C33: replay transitions of spec/Heap.tla on a real stand-alone Heap with a canary guard region.
+/// input lines: {"len","cap","op":{"name","arg"},"maxcap"}; output: {"ok","len","cap","guard","skipped"}
+fn heapops() {
+    use scryer_prolog::verif::{HeapProbe, GROW_FAIL};
+    use std::io::{BufRead, Write};
+    let mut out = crate::protocol_out();
+    let stdin = std::io::stdin();
+    for line in stdin.lock().lines() {
+        let line = match line {
+            Ok(l) => l,
+            Err(_) => break,
+        };
+        if line.trim().is_empty() {
+            continue;
+        }
+        let v: Value = match serde_json::from_str(&line) {
+            Ok(v) => v,
+            Err(_) => continue,
+        };
+        let len = v["len"].as_u64().unwrap_or(0) as usize;
+        let cap = v["cap"].as_u64().unwrap_or(0) as usize;
+        let maxcap = v["maxcap"].as_u64().unwrap_or(0) as usize;
+        let name = v["op"]["name"].as_str().unwrap_or("").to_string();
+        let arg = v["op"]["arg"].clone();
+        let r = std::panic::catch_unwind(std::panic::AssertUnwindSafe(|| {
+            GROW_FAIL.set(0);
+            if cap == 0 {
+                return json!({"skipped": "empty heap (real initial capacity differs from the model's)"});
+            }
+            let mut h = match HeapProbe::with_cell_capacity(cap / 8) {
+                Some(h) => h,
+                None => return json!({"skipped": "alloc"}),
+            };
+            if name == "copy_pstr_within" {
+                let l = arg.as_u64().unwrap_or(0) as usize;
+                let s: String = std::iter::repeat('a').take(l).collect();
+                if !h.allocate_pstr(&s) || h.byte_len() > len || h.cap_and_guard().0 != cap {
+                    return json!({"skipped": "source string does not fit below len"});
+                }
+            }
+            while h.byte_len() < len {
+                if !h.push_cell() {
+                    return json!({"skipped": "fill"});
+                }
+            }
+            if h.byte_len() != len || h.cap_and_guard().0 != cap {
+                return json!({"skipped": "fill mismatch"});
+            }
+            // growth beyond maxcap must fail: allow exactly the doublings that stay within maxcap
+            let mut allowed = 0i64;
+            let mut c = cap;
+            while c * 2 <= maxcap {
+                c *= 2;
+                allowed += 1;
+            }
+            GROW_FAIL.set(allowed + 1);
+            let ok = match name.as_str() {
+                "push_cell" => h.push_cell(),
+                "reserve_write" => {
+                    let n = arg[0].as_u64().unwrap_or(0) as usize;
+                    let k = arg[1].as_u64().unwrap_or(0) as usize;
+                    h.reserve_and_write(n, k)
+                }
+                "allocate_pstr" => h.allocate_pstr(&str_of(&arg)),
+                "allocate_cstr" => h.allocate_cstr(&str_of(&arg)),
+                "append" => h.append_cells(arg.as_u64().unwrap_or(0) as usize),
+                "copy_slice_to_end" => {
+                    let m = arg.as_u64().unwrap_or(0) as usize;
+                    if m * 8 > len {
+                        GROW_FAIL.set(0);
+                        return json!({"skipped": "slice longer than heap"});
+                    }
+                    h.copy_slice_to_end(0, m)
+                }
+                "copy_pstr_within" => h.copy_pstr_within(0).is_some(),
+                "truncate" => {
+                    h.truncate(arg.as_u64().unwrap_or(0) as usize);
+                    true
+                }
+                _ => {
+                    GROW_FAIL.set(0);
+                    return json!({"skipped": "unknown op"});
+                }
+            };
+            GROW_FAIL.set(0);
+            let (c2, guard) = h.cap_and_guard();
+            let mut res = json!({"ok": ok, "len": h.byte_len(), "cap": c2, "guard": guard});
+            if name == "copy_pstr_within" && ok {
+                // the copy must read back as the same string
+                let l = arg.as_u64().unwrap_or(0) as usize;
+                res["copy_ok"] = json!(h.read_pstr(len).len() == l);
+            }
+            res
+        }));
+        let res = match r {
+            Ok(v) => v,
+            Err(_) => {
+                GROW_FAIL.set(0);
+                json!({"panic": crate::take_panic()})
+            }
+        };
+        let _ = writeln!(out, "{}", res);
+    }
+    let _ = out.flush();
 }
